@@ -10,8 +10,8 @@ from common import LEAN_DIR
 from framework import Case, Finding
 
 PROP = "C04"
-GENERATED = ['DtypeTables', 'Core', 'SrcShape']  # generated files this check's tie depends on
-LEAN_MODULES = ["Properties.C04", "Properties.Core", "Properties.Prov.Shape"]
+GENERATED = ['DtypeTables', 'Core', 'SrcShape', 'ShapeLoop']  # generated files this check's tie depends on
+LEAN_MODULES = ["Properties.C04", "Properties.Core", "Properties.Prov.Shape", "Properties.CoreShape"]
 RULE = (
     "complete observation of a finite function: every exported class x every dtype object that numpy (+ml_dtypes), torch and jax can put on "
     "an array (enumerated from the libraries' own dtype registries: sctypeDict, every torch.dtype attribute, every jnp scalar type, plus "
